@@ -5,6 +5,7 @@
 From Coq Require Import NArith Bool List Permutation.
 Import ListNotations.
 From XetModel Require Import Gen.ReconFacts Model.Cache Model.Reconstruct Proofs.CacheProofs Proofs.CacheHitProofs Proofs.ReconstructProofs.
+From XetModel Require Import Model.Merkle Model.Shard Model.Dedup Proofs.EndToEndProofs Proofs.FetchTermProofs.
 Open Scope N_scope.
 
 (* fetch, trim to term: whatever wider range was fetched, the term's data is exactly the chunks [ts, te) *)
@@ -46,7 +47,17 @@ Proof. destruct ex_reconstruct as (A & _ & B & _). split; assumption. Qed.
 Example C17_source_shape_pinned : reconstruction_shape_pinned = true.
 Proof. reflexivity. Qed.
 
+
+(* coalesced fetch ranges: the chunk range [fs, fe) of a xorb downloaded once and trimmed to a term [ts, te) inside it is the term
+   the writers need -- so a download through coalesced fetch ranges writes what C01_upload_then_download states for terms
+   fetched one by one.  [content h] is the chunk data behind chunk hash h *)
+Theorem C17_term_from_fetch_range : forall (content : Merkle.hash -> bytes) F s x fs fe, st_find F (sg_cas s) = Some x ->
+  fs <= sg_start s -> sg_start s <= sg_end s -> sg_end s <= fe -> fe <= N.of_nat (length (ci_chunks x)) ->
+  trim_term (fetched_range content x fs fe) fs (sg_start s) (sg_end s) (lenN (term_of content F s)) = Some (term_of content F s).
+Proof. exact term_from_fetch_range. Qed.
+
 Print Assumptions C17_trim_to_term_exact.
 Print Assumptions C17_sequential_writer_exact.
 Print Assumptions C17_parallel_eq_sequential.
 Print Assumptions C17_completion_order_irrelevant.
+Print Assumptions C17_term_from_fetch_range.
